@@ -87,6 +87,14 @@ type HarnessError struct{ Msg string }
 
 func (h HarnessError) Error() string { return h.Msg }
 
+// VoidRun abandons the current run without a verdict: the environment (not the code under test)
+// made it undecidable, e.g. a fixed real-time deadline of go-sandbox expired on an overloaded
+// machine before the scenario was even set up. Void runs are counted (reach probe "void_run:<why>")
+// and the check turns into harness trouble (exit 2) if more than a quarter of all runs are void.
+type voidRun struct{ why string }
+
+func VoidRun(why string) { panic(voidRun{why}) }
+
 // Harnessf panics with a HarnessError.
 func Harnessf(f string, a ...any) { panic(HarnessError{fmt.Sprintf(f, a...)}) }
 
@@ -102,6 +110,11 @@ func runOnce(p *Prop, c *Ctx) (v *Violation) {
 	defer func() {
 		if r := recover(); r != nil {
 			if _, ok := r.(ErrTooManyDraws); ok {
+				v = nil
+				return
+			}
+			if vr, ok := r.(voidRun); ok {
+				c.Probe("void_run:" + vr.why)
 				v = nil
 				return
 			}
@@ -708,6 +721,16 @@ func report(p *Prop, tier string, seed uint64, b Budget, results []*shardResult,
 		p.ID, tier, runs, len(hashes), len(hashesNT), len(states), faults, wall.Seconds(), nviol)
 	if len(missing) > 0 && tier == "thorough" {
 		fmt.Fprintf(os.Stderr, "verif: reach probes never hit: %v\n", missing)
+	}
+	void := 0
+	for k, n := range probes {
+		if strings.HasPrefix(k, "void_run:") {
+			void += n
+		}
+	}
+	if code == 0 && void*4 > runs {
+		fmt.Fprintf(os.Stderr, "verif: %d of %d runs were void (environment too slow to set the scenario up): nothing decided\n", void, runs)
+		return 2
 	}
 	return code
 }
